@@ -2,6 +2,7 @@ package checks
 
 import (
 	"encoding/json"
+	"time"
 
 	"verif/mc/evid"
 )
@@ -37,9 +38,15 @@ func init() {
 		},
 		Workers:      constInt(0, 0),
 		SchedWorkers: constInt(10, 10),
-		Run:          schedOnly,
-		Replay:       schedReplayDispatch,
-		Post:         schedPost,
+		Budget: func(tier string) time.Duration {
+			if tier == "quick" {
+				return 150 * time.Second
+			}
+			return 150 * time.Minute // bound 2 over ~600 scheduling points per execution is ~10^6 schedules per harness
+		},
+		Run:    schedOnly,
+		Replay: schedReplayDispatch,
+		Post:   schedPost,
 	}
 	Registry["C17"] = &Check{
 		Spec: func(tier string) evid.Spec {
